@@ -469,7 +469,7 @@ def oracle_roundtrip(inp):
         if w != g:
             return ('attr', n), '%s record %s: attribute %s is %r, encoded %r' % (
                 s['kind'], data.hex(), n, getattr(obj, n, g) if n != 'class' else g,
-                dict(expected(s))[n])
+                (lambda v: v[1] if isinstance(v, tuple) else v)(dict(expected(s))[n]))
     if list(obj.data) != list(data):
         return ('attr', 'data'), 'data attribute differs from the input'
     return None
